@@ -166,10 +166,10 @@ def isingEdgeMat (J : Rat) : List Rat :=
     let o := i / 4; let ins := i % 4
     if o = ins then (if ins = 0 ∨ ins = 3 then a - J else a + J) else 0
 
-/-- `longitudinal_hamiltonian`: `|h| + h` on (1,1), `|h| − h` on (0,0), `|h|` off the diagonal -/
+/-- `longitudinal_hamiltonian`: `|h| + h` on (1,1), `|h| − h` on (0,0), 0 off the diagonal (the field term is diagonal) -/
 def isingLongMat (h : Rat) : List Rat :=
   let a := (if h < 0 then -h else h)
-  [a - h, a, a, a + h]
+  [a - h, 0, 0, a + h]
 
 /-- bonds: edges (two-site, not constant), then one constant transverse bond per variable, then one
 longitudinal bond per variable iff `h ≠ 0` (the code's test is `|h| > f64::EPSILON`). -/
@@ -178,4 +178,67 @@ def isingBonds (edges : List (Nat × Nat × Rat)) (Γ h : Rat) (nvars : Nat) : L
   ++ (List.range nvars).map (fun v => { vars := [v], const := true, mat := [Γ, Γ, Γ, Γ] })
   ++ (if h = 0 then [] else (List.range nvars).map (fun v => { vars := [v], const := false, mat := isingLongMat h }))
 
+/-! ### protocol steps shared by the C08 and C02 drivers -/
+namespace Proto
+
+def showTableHam (bs : List TBond) : String :=
+  s!"H{bs.length}!" ++ String.intercalate "!" (bs.map fun b => s!"{showNats b.vars}:{showBool b.const}:{showRats b.mat}")
+
+def showSweep (c : Config) (rs : RS) : String :=
+  s!"{showSlots c.slots} {showBits c.state} {rs.verdict}"
+
+def showTable (t : Option BW) : String :=
+  match t with
+  | none => "none"
+  | some bw => showRats bw
+
+/-- kinds `msweep`, `hsweep`, `bw`, `mprob`, `hprob` (see Drivers/C08.lean) -/
+def diagStep (toks : List String) : Option String :=
+  match toks with
+  | ["msweep", ham, beta, cutoff, state, slots, script] =>
+    let H := tableHam (parseTableHam ham)
+    let c : Config := { state := parseBits state, slots := parseSlots slots }
+    let (c', rs) := metropolisSweep H (parseRat beta) (parseNat cutoff) c (RS.ofScript (parseNats script))
+    some (showSweep c' rs)
+  | ["hsweep", ham, table, beta, cutoff, state, slots, script] =>
+    let H := tableHam (parseTableHam ham)
+    let bw : BW := parseRats table
+    let c : Config := { state := parseBits state, slots := parseSlots slots }
+    let (c', rs) := heatBathSweep H bw (parseRat beta) (parseNat cutoff) c (RS.ofScript (parseNats script))
+    some (showSweep c' rs)
+  | ["bw", ham] =>
+    let H := tableHam (parseTableHam ham)
+    let bw := makeBondWeights H
+    some s!"{showRats bw} {showRats (cumul bw)}"
+  | ["mprob", ham, beta, cutoff, state, slots, script, k, b] =>
+    let H := tableHam (parseTableHam ham)
+    let β := parseRat beta
+    let L := parseNat cutoff
+    let c : Config := { state := parseBits state, slots := parseSlots slots }
+    let (_, st, n, rs) := sweepPrefix (metropolisSlot H β L) L (parseNat k) c (RS.ofScript (parseNats script))
+    let bond := parseNat b
+    let sub := readVars st (H.vars bond)
+    let w := H.w bond sub sub
+    if rs.panicked || rs.short then some "PANIC" else
+    if rs.margin < 1 / 1000000000 then some "?" else
+    some s!"{n} {showApprox (1 / (H.nbonds : Rat))} {showApprox (accInsM β H.nbonds w L n)} {showApprox (accRemM β H.nbonds w L (n + 1))}"
+  | ["hprob", ham, table, beta, cutoff, state, slots, script, k, b] =>
+    let H := tableHam (parseTableHam ham)
+    let bw : BW := parseRats table
+    let β := parseRat beta
+    let L := parseNat cutoff
+    let c : Config := { state := parseBits state, slots := parseSlots slots }
+    let (_, st, n, rs) := sweepPrefix (heatBathSlot H bw β L) L (parseNat k) c (RS.ofScript (parseNats script))
+    let bond := parseNat b
+    let sub := readVars st (H.vars bond)
+    let w := H.w bond sub sub
+    let W := (bwTotal bw).getD 0
+    let mw := bw.getD bond 0
+    let acc : Rat := if mw = 0 then 0 else clip1 (w / mw)
+    if rs.panicked || rs.short then some "PANIC" else
+    if rs.margin < 1 / 1000000000 then some "?" else
+    some s!"{n} {showApprox (β * W / (((L - n : Nat) : Rat) + β * W))} {showApprox (mw / W)} {showApprox acc} {showApprox (pRemoveHB β W L (n + 1))}"
+  | _ => none
+
+end Proto
 end Qmc
